@@ -273,6 +273,8 @@ func body(c *vk.Ctx) {
 		return
 	}
 
+	partManager(c)
+
 	var wg sync.WaitGroup
 	sem := make(chan struct{}, 16)
 	var mu sync.Mutex
@@ -377,6 +379,13 @@ func replay(c *vk.Ctx) {
 	}
 	if err := vk.ReadJSON(c.Replay, &rf); err != nil {
 		c.Broken("replay file: %v", err)
+		return
+	}
+	var mf struct {
+		Case mcase `json:"case"`
+	}
+	if _ = vk.ReadJSON(c.Replay, &mf); mf.Case.Part == "manager" {
+		replayManager(c, mf.Case)
 		return
 	}
 	p := param{rf.Case.Df, rf.Case.Thr}
